@@ -311,7 +311,7 @@ func modeIndex(m string) int {
 // awaitClose waits for the server side OnClose of a session. The first wait for a given key uses the
 // full deadline; once that key is already reported the later cases only add to its count.
 func awaitClose(c *ctx, closed chan closeInfo, key string) (closeInfo, bool) {
-	d := eventDeadline
+	d := curDeadline()
 	c.col.mu.Lock()
 	if c.col.m[key] != nil {
 		d = 2 * time.Second
@@ -500,7 +500,7 @@ func realPost(c *ctx, sess *pollSession, body []byte, declared int64) (code int,
 		io.Copy(io.Discard, resp.Body)
 		resp.Body.Close()
 	}
-	t := time.NewTimer(eventDeadline)
+	t := time.NewTimer(curDeadline())
 	defer t.Stop()
 	select {
 	case <-handlerDone:
